@@ -201,9 +201,9 @@ FINDINGS = [
             "with num_core == 1 to_inter == to_intra: every leader sends the message twice and the last one sends it back to "
             "rank 0; the unmatched messages are received by the next bcast (wrong data, truncation) or hit a finished rank"),
     Finding("bcast/SMP_binomial bcast/mpich", "ranks-per-host-not-power-of-two:message-to-a-rank-of-the-next-host",
-            P("K > 1 and (K & (K - 1)) != 0"), {CRASH, DEAD, WRONG, STRAY, ERR}, W(6, "cyc2", "b 0 0 1 int none", "b 1 0 1 int none"),
-            "with 3 ranks per host the intra-node binomial tree of bcast__SMP_binomial (used by the mpich selector on SMP "
-            "placements) addresses a rank of the next host: messages nobody receives", crash=False),
+            P("K > 1 and (K & (K - 1)) != 0 and M > 2"), {CRASH, DEAD, WRONG, STRAY, ERR}, W(9, "blk3", "b 0 0 1 int none"),
+            "with 3 ranks per host on 3 hosts or more, bcast__SMP_binomial (used by the mpich selector on SMP placements) "
+            "sends a message to a rank that never receives it (abort: 'trying to send data to rank 6, which is not to be found')"),
     Finding("bcast/arrival_scatter", "count<np:fallback-calls-itself:crash", P("(c < np or lay == 'rev') and np > 1"), {CRASH},
             W(2, "flat", "b 0 0 1 int none"),
             "for count < size the algorithm calls colls::bcast, i.e. itself when it is the selected algorithm: unbounded recursion "
